@@ -28,7 +28,9 @@ def plan(tier, seed):
             dict(name="C01-lemma-find-type", kind="pyfunc", timeout=400,
                  payload=dict(func="vf.pyshim.lemma_types:find_type_roundtrip")),
             dict(name="C01-lemma-range-index", kind="pyfunc", timeout=300,
-                 payload=dict(func="vf.pyshim.lemmas:range_index", kwargs=dict(max_step=6)))]
+                 payload=dict(func="vf.pyshim.lemmas:range_index", kwargs=dict(max_step=6))),
+            ch("C01", "vf/pyshim/h_c06.py", "h_range_index", 60 if tier == "quick" else 300,
+               ["api.ParquetFile.pre_allocate"])]
     wc = wc_lattice.jobs("C01", tier)
     jobs += wc if tier == "thorough" else wc[:6]
     jobs.append(ch("C01", "vf/pyshim/h_write.py", "h_write_new_options", t,
